@@ -493,6 +493,22 @@ pub fn run(tier: Tier) -> Report {
     arith_checks!(acc, "Coor3D", Coor3D, 3, f64);
     arith_checks!(acc, "Coor2D", Coor2D, 2, f64);
     arith_checks!(acc, "Coor32", Coor32, 2, f32);
+    // the inherent (not trait default) scale and dot of the concrete tuple types agree with the element-wise definition
+    for &x in V.iter().chain([1e-10, 1e30, 3.5].iter()) {
+        for &w in V.iter().chain([1e39, 1e-46, 0.1, -2.].iter()) {
+            rep.eval(4);
+            let same = |a: f64, b: f64| bits(a) == bits(b) || (a.is_nan() && b.is_nan());
+            let c32 = Coor32([x as f32, 1.]).scale(w);
+            let ok32 = same(c32.0[0] as f64, ((x as f32) as f64 * w) as f32 as f64) && same(c32.0[1] as f64, (1.0 * w) as f32 as f64);
+            acc.check(ok32, "Coor32: inherent scale is not element-wise (factor narrowed to 32 bits first)", || json!({"tuple": [x, 1.], "factor": format!("{w:?}"), "got": format!("{:?}", c32.0)}));
+            let c2 = Coor2D([x, 1.]).scale(w);
+            acc.check(same(c2.0[0], x * w) && same(c2.0[1], w), "Coor2D: inherent scale is not element-wise", || json!({"tuple": [x, 1.], "factor": format!("{w:?}"), "got": format!("{:?}", c2.0)}));
+            let c3 = Coor3D([x, 1., -1.]).scale(w);
+            acc.check(same(c3.0[0], x * w) && same(c3.0[2], -w), "Coor3D: inherent scale is not element-wise", || json!({"tuple": [x, 1., -1.], "factor": format!("{w:?}"), "got": format!("{:?}", c3.0)}));
+            let c4 = Coor4D([x, 1., -1., 2.]).scale(w);
+            acc.check(same(c4.0[0], x * w) && same(c4.0[3], 2. * w), "Coor4D: inherent scale is not element-wise", || json!({"tuple": [x, 1., -1., 2.], "factor": format!("{w:?}"), "got": format!("{:?}", c4.0)}));
+        }
+    }
     match catch(|| containers(&acc)) {
         Ok(()) => {}
         Err(p) => rep.violation(&format!("container access panics: {}", panic_class(&p)), json!({"panic": p})),
